@@ -895,6 +895,18 @@ class PEval(Folder):
                 if c[1] in table:
                     return table[c[1]](self, st, list(args), {"callee": c[1], "declared": c[1]})
         callee = self.facts.fn(c[1])
+        if callee is None and c[0] == "fn" and "::" in c[1]:
+            # a tuple-variant / tuple-struct constructor used as a function (`map_err(Error::Io)`)
+            ap, vn = c[1].rsplit("::", 1)
+            ad = self.facts.adts.get(ap)
+            if ad:
+                names = [v["name"] for v in ad["variants"]]
+                if vn in names and len(ad["variants"][names.index(vn)]["fields"]) == len(args):
+                    return ("adt", ap, names.index(vn), vn, tuple(args))
+            if ap in ("std::option::Option", "core::option::Option") and vn == "Some" and len(args) == 1:
+                return some(args[0])
+            if ap in ("std::result::Result", "core::result::Result") and vn in ("Ok", "Err") and len(args) == 1:
+                return ("adt", "std::result::Result", 0 if vn == "Ok" else 1, vn, (args[0],))
         if callee is None:
             raise _Abort("top", "closure body %s not available" % c[1])
         depth = len(st.frames)
@@ -981,11 +993,16 @@ def _as_iter(pe, st, v):
         if tgt != TOP and tgt[0] == "hview":
             h = ("harr", tgt[1])
             return ("iter", tuple(("ref", ("const", pe.heap.get(h, i))) for i in range(tgt[2], tgt[3])), 0)
+        if tgt != TOP and tgt[0] == "harr":
+            return ("iter", tuple(("ref", ("const", pe.heap.get(tgt, i))) for i in range(pe.heap.length(tgt))), 0)
     return None
 
 
 @pmodel("<I as std::iter::IntoIterator>::into_iter", "std::iter::IntoIterator::into_iter", "<std::vec::Vec<T, A> as std::iter::IntoIterator>::into_iter",
         "core::slice::iter::<impl std::iter::IntoIterator for &'a mut [T]>::into_iter",
+        "<&'a std::vec::Vec<T, A> as std::iter::IntoIterator>::into_iter", "<&'a mut std::vec::Vec<T, A> as std::iter::IntoIterator>::into_iter",
+        "core::array::iter::<impl std::iter::IntoIterator for &'a [T; N]>::into_iter",
+        "core::array::iter::<impl std::iter::IntoIterator for &'a mut [T; N]>::into_iter",
         "std::array::iter::<impl std::iter::IntoIterator for [T; N]>::into_iter",
         "core::slice::iter::<impl std::iter::IntoIterator for &'a [T]>::into_iter", "core::slice::<impl [T]>::iter")
 def _into_iter(pe, st, args, t):
@@ -1760,10 +1777,11 @@ def _deref_mut(pe, st, args, t):
 def _join(pe, st, args, t):
     v = _deref(pe, st, args[0])
     sep = _str_tokens(pe, st, args[1]) if len(args) > 1 else ()
-    if v == TOP or v[0] != "array" or sep is None:
+    items = _seq_items(pe, v)
+    if items is None or sep is None:
         raise _Abort("top", "join() of an unknown slice")
     out = []
-    for i, x in enumerate(v[1]):
+    for i, x in enumerate(items):
         toks = _str_tokens(pe, st, x)
         if toks is None:
             raise _Abort("top", "join() of unknown strings")
@@ -2455,6 +2473,48 @@ def _pystr(pe, st, v):
         return v[1]
     if v[0] == "string" and all(isinstance(x, int) for x in v[1]):
         return "".join(chr(x) for x in v[1])
+    if v[0] == "string":
+        # Display holes of known numbers are rendered when the text itself is needed (bytes written to a file)
+        out = []
+        for x in v[1]:
+            if isinstance(x, int):
+                out.append(chr(x))
+                continue
+            txt = _render_disp(x)
+            if txt is None:
+                return None
+            out.append(txt)
+        return "".join(out)
+    return None
+
+
+def _render_disp(tok):
+    """text of a ("disp", value[, flags, width, precision]) hole whose value is a known number, as Rust's Display prints it"""
+    if not (isinstance(tok, tuple) and tok and tok[0] == "disp"):
+        return None
+    v = tok[1]
+    flags, width, prec = (tok[2], tok[3], tok[4]) if len(tok) >= 5 else (None, None, None)
+    if flags not in (None, 0):
+        # packed FormattingOptions: fill char in bits 0..20, flags above; accept the default (fill ' ', alignment unset,
+        # no sign/alternate/zero-pad, no width), with or without the precision-present bit
+        if flags & ~((1 << 28) | (3 << 29) | (1 << 31)) != 0x20:
+            return None
+    if v == TOP or (width not in (None, 0)):
+        return None
+    if v[0] == "int" and prec is None:
+        return str(v[2])
+    if v[0] == "bool" and prec is None:
+        return "true" if v[1] else "false"
+    if v[0] == "float":
+        x = float(v[1])
+        if x != x or x in (float("inf"), float("-inf")):
+            return None
+        if prec is not None:
+            return format(x, ".%df" % prec)
+        if x == int(x) and abs(x) < 1e16:
+            return ("-" if (x < 0 or (x == 0 and str(x).startswith("-"))) else "") + str(abs(int(x)))
+        r = repr(x)
+        return None if "e" in r or "E" in r else r
     return None
 
 
@@ -2519,6 +2579,18 @@ def _string_remove(pe, st, args, t):
     c = s_[len(head)]
     pe.store_ptr(st, r[1], _mkstring(head + s_[len(head) + 1:]))
     return ("char", ord(c))
+
+
+@pmodel("<std::string::String as std::convert::From<&str>>::from", "<std::string::String as std::convert::From<&std::string::String>>::from",
+        "<std::string::String as std::convert::From<&mut str>>::from", "alloc::str::<impl std::borrow::ToOwned for str>::to_owned",
+        "std::str::<impl std::borrow::ToOwned for str>::to_owned", "<str as std::string::ToString>::to_string",
+        "<std::string::String as std::convert::From<char>>::from", "std::borrow::ToOwned::to_owned")
+def _string_from(pe, st, args, t):
+    v = _deref_all(pe, st, args[0])
+    toks = _str_tokens(pe, st, v)
+    if toks is None:
+        raise _Abort("top", "String::from of an unknown string")
+    return ("string", tuple(toks))
 
 
 @pmodel("std::string::String::is_empty", "core::str::<impl str>::is_empty")
@@ -2621,6 +2693,110 @@ def _vec_push(pe, st, args, t):
         pe.store_ptr(st, r[1], ("array", tuple(v[1]) + (x,)))
         return UNIT
     raise _Abort("top", "push on an unknown vector")
+
+
+def _vec_set(pe, st, r, items):
+    """replace the vector behind reference r by one holding items"""
+    v = _deref(pe, st, r)
+    if v != TOP and v[0] == "harr":
+        ent = pe.heap.arrs[v[1]]
+        ent[0] = len(items)
+        ent[2] = dict(enumerate(items))
+        pe.heap.version += 1
+        return
+    if r == TOP or r[0] != "ref" or r[1][0] != "place":
+        raise _Abort("top", "update of a vector that is not in a known place")
+    pe.store_ptr(st, r[1], _vec_of(pe, items))
+
+
+@pmodel("<std::vec::Vec<T, A> as std::iter::Extend<T>>::extend", "<std::vec::Vec<T, A> as std::iter::Extend<&'a T>>::extend",
+        "std::vec::Vec::<T, A>::extend_from_slice", "std::vec::Vec::<T, A>::append")
+def _vec_extend(pe, st, args, t):
+    r, src = args
+    cur = _seq_items(pe, _deref(pe, st, r))
+    nm = (t.get("callee") or "").rsplit("::", 1)[1]
+    if cur is None:
+        raise _Abort("top", "%s() on an unknown vector" % nm)
+    if nm == "append":
+        add = _seq_items(pe, _deref(pe, st, src))
+        if add is None:
+            raise _Abort("top", "append() of an unknown vector")
+        _vec_set(pe, st, src, [])
+    elif nm == "extend_from_slice":
+        add = _seq_items(pe, _deref(pe, st, src))
+        if add is None and _deref(pe, st, src) != TOP and _deref(pe, st, src)[0] in ("symvec", "symslice"):
+            raise _Abort("top", "extend_from_slice of payload bytes is not modelled")
+        if add is None:
+            raise _Abort("top", "extend_from_slice() of an unknown slice")
+    else:
+        it = _as_iter(pe, st, src)
+        if it is None or (len(it) > 3 and it[3] == ("cycle",)):
+            raise _Abort("top", "extend() from an unknown iterator")
+        add = list(it[1][it[2]:])
+        if "Extend<&'a T>" in (t.get("callee") or ""):
+            add = [_deref(pe, st, x) for x in add]
+    _vec_set(pe, st, r, list(cur) + list(add))
+    return UNIT
+
+
+@pmodel("std::vec::Vec::<T, A>::pop", "std::vec::Vec::<T, A>::clear", "std::vec::Vec::<T, A>::truncate", "std::vec::Vec::<T, A>::insert",
+        "std::vec::Vec::<T, A>::remove", "std::vec::Vec::<T, A>::swap_remove")
+def _vec_edit(pe, st, args, t):
+    r = args[0]
+    nm = (t.get("callee") or "").rsplit("::", 1)[1]
+    cur = _seq_items(pe, _deref(pe, st, r))
+    if cur is None:
+        raise _Abort("top", "%s() on an unknown vector" % nm)
+    if nm == "pop":
+        if not cur:
+            return NONE
+        _vec_set(pe, st, r, cur[:-1])
+        return some(cur[-1])
+    if nm == "clear":
+        _vec_set(pe, st, r, [])
+        return UNIT
+    i = args[1]
+    if i == TOP or i[0] != "int":
+        raise _Abort("top", "%s() with an unknown index" % nm)
+    if nm == "truncate":
+        _vec_set(pe, st, r, cur[:i[2]])
+        return UNIT
+    if nm == "insert":
+        if i[2] > len(cur):
+            raise _Abort("diverge", "insert(%d) into a vector of length %d" % (i[2], len(cur)))
+        _vec_set(pe, st, r, cur[:i[2]] + [args[2]] + cur[i[2]:])
+        return UNIT
+    if i[2] >= len(cur):
+        raise _Abort("diverge", "%s(%d) on a vector of length %d" % (nm, i[2], len(cur)))
+    x = cur[i[2]]
+    if nm == "remove":
+        _vec_set(pe, st, r, cur[:i[2]] + cur[i[2] + 1:])
+    else:
+        rest = list(cur)
+        rest[i[2]] = rest[-1]
+        _vec_set(pe, st, r, rest[:-1])
+    return x
+
+
+@pmodel("<std::string::String as std::iter::Extend<char>>::extend", "<std::string::String as std::iter::Extend<&'a str>>::extend",
+        "<std::string::String as std::iter::Extend<std::string::String>>::extend", "<std::string::String as std::iter::Extend<&'a char>>::extend")
+def _string_extend(pe, st, args, t):
+    r, src = args
+    cur = _deref(pe, st, r)
+    it = _as_iter(pe, st, src)
+    if r == TOP or r[0] != "ref" or cur == TOP or cur[0] != "string" or it is None or (len(it) > 3 and it[3] == ("cycle",)):
+        raise _Abort("top", "String::extend on an unknown string/iterator")
+    toks = list(cur[1])
+    for x in it[1][it[2]:]:
+        x = _deref_all(pe, st, x)
+        tk = _str_tokens(pe, st, x)
+        if tk is None:
+            tk = _char_tokens(x)
+        if tk is None:
+            raise _Abort("top", "String::extend with unknown pieces")
+        toks += list(tk)
+    pe.store_ptr(st, r[1], ("string", tuple(toks)))
+    return UNIT
 
 
 @pmodel("std::vec::Vec::<T>::with_capacity")
